@@ -91,7 +91,7 @@ Proof.
   destruct (save_load_roundtrip c Hwt1) as (y & Hy & Hde).
   unfold run, run_with. rewrite Hvalid. cbn [negb]. rewrite Hy, Hde.
   cbn [list_eqb Z.eqb negb andb].
-  rewrite skipn_zlen. rewrite val_eqb_refl. apply negb_true_iff in Hnan. rewrite Hnan. reflexivity.
+  rewrite val_eqb_refl. apply negb_true_iff in Hnan. rewrite Hnan. reflexivity.
 Qed.
 
 (* `save` as it is now never panics: every outcome is refused / Err / written *)
